@@ -26,11 +26,11 @@ import (
 )
 
 type entry struct {
-	name, suffix, defaultSuffix                string
-	defaultM, mMin, mMax, mMod, nMin, nMax     uint64
-	fixed32                                    bool
-	dynamic, json, reader, encode, decode      string
-	seen                                       map[string]bool
+	name, suffix, defaultSuffix            string
+	defaultM, mMin, mMax, mMod, nMin, nMax uint64
+	fixed32                                bool
+	dynamic, json, reader, encode, decode  string
+	seen                                   map[string]bool
 }
 
 func fail(format string, a ...interface{}) {
@@ -333,36 +333,10 @@ func main() {
 		}
 	}
 
-	// strconv.ParseUint(x, base, bits) in the three numeric parsers
-	parseArgs := func(fn string) (uint64, uint64) {
-		for _, d := range file.Decls {
-			fd, ok := d.(*ast.FuncDecl)
-			if !ok || fd.Name.Name != fn || fd.Body == nil {
-				continue
-			}
-			var calls []*ast.CallExpr
-			ast.Inspect(fd.Body, func(n ast.Node) bool {
-				if c, ok := n.(*ast.CallExpr); ok {
-					if sel, ok := c.Fun.(*ast.SelectorExpr); ok {
-						if x, ok := sel.X.(*ast.Ident); ok && x.Name == "strconv" && strings.HasPrefix(sel.Sel.Name, "Parse") {
-							calls = append(calls, c)
-						}
-					}
-				}
-				return true
-			})
-			if len(calls) != 1 {
-				fail("%s: expected exactly one strconv.Parse* call, found %d", fn, len(calls))
-			}
-			c := calls[0]
-			if c.Fun.(*ast.SelectorExpr).Sel.Name != "ParseUint" || len(c.Args) != 3 {
-				fail("%s: the numeric parse is not strconv.ParseUint(s, base, bits)", fn)
-			}
-			return intLit(c.Args[1], fn+": base"), intLit(c.Args[2], fn+": bitSize")
-		}
-		fail("function %s not found", fn)
-		return 0, 0
-	}
+	// strconv.ParseUint(x, base, bits) in the three numeric parsers (see numparse.go: the call may sit
+	// in a helper of the same package, reached through constant arguments)
+	pk := loadPackage(fset, filepath.Join(*repo, "pkg", "abi"), file, src)
+	parseArgs := func(fn string) (uint64, uint64) { return pk.numericParse(fn) }
 	mBase, mBits := parseArgs("parseMSuffix")
 	nBase, nBits := parseArgs("parseNSuffix")
 	aBase, aBits := parseArgs("parseArrayM")
